@@ -162,6 +162,10 @@ type world struct {
 	srcSnap   *core.Snapshot // last snapshot of S
 	nontriv   int
 	executed  int // operations issued to both endpoints
+	nextID    int
+	used      []int
+	unsynced  bool // the server may still be consuming staging transmissions
+	ambiguous map[string]bool
 }
 
 var caseCounter int64
@@ -200,7 +204,7 @@ func (w *world) guard(f func()) bool {
 
 func newWorld(scratch, data string, cid string, cs *caseSpec) (*world, error) {
 	n := atomic.AddInt64(&caseCounter, 1)
-	w := &world{cs: cs, cid: cid, data: data, rng: rand.New(rand.NewSource(cs.Seed*1000003 + 17))}
+	w := &world{cs: cs, cid: cid, data: data, rng: rand.New(rand.NewSource(cs.Seed*1000003 + 17)), ambiguous: map[string]bool{}}
 	d, err := os.MkdirTemp(scratch, "c")
 	if err != nil {
 		return nil, err
@@ -233,6 +237,7 @@ func newWorld(scratch, data string, cid string, cs *caseSpec) (*world, error) {
 // connect creates the three endpoints. It is called after the initial trees
 // have been written.
 func (w *world) connect() error {
+	w.observeDuplicates()
 	cfg := configuration(w.cs)
 	var err error
 	okL := w.guard(func() {
@@ -342,8 +347,8 @@ func (w *world) contentBytes(id int) []byte {
 		return []byte{}
 	}
 	r := rand.New(rand.NewSource(w.cs.Seed*7919 + int64(id)*104729))
-	if id <= 20 {
-		b := make([]byte, 1+r.Intn(300))
+	if id%3 == 0 {
+		b := make([]byte, 8+r.Intn(300))
 		r.Read(b)
 		return b
 	}
@@ -351,10 +356,33 @@ func (w *world) contentBytes(id int) []byte {
 	rand.New(rand.NewSource(w.cs.Seed*31 + 5)).Read(common)
 	tail := make([]byte, 200+r.Intn(9000))
 	r.Read(tail)
-	if id%3 == 0 {
+	if id%3 == 1 {
 		return append(tail, common...)
 	}
 	return append(append([]byte{}, common...), tail...)
+}
+
+// fresh returns a content number never used before in this case. The mirrored
+// roots never hold two files with the same content: the local endpoint picks
+// the source of a "copy from the root" among equal-content files in Go map
+// order, so with a stale duplicate its own staging result is not a function of
+// its inputs and could not serve as the oracle.
+func (w *world) fresh() int {
+	w.nextID++
+	w.used = append(w.used, w.nextID)
+	return w.nextID
+}
+
+// sourceContent: for the source, two times out of three a content the mirrored roots
+// have (or had) somewhere - a rename or copy as seen from the endpoint.
+func (w *world) sourceContent() int {
+	if len(w.used) > 0 && w.rng.Intn(3) > 0 {
+		return w.used[w.rng.Intn(len(w.used))]
+	}
+	if w.rng.Intn(12) == 0 {
+		return 0
+	}
+	return w.fresh()
 }
 
 type edit struct {
@@ -365,12 +393,18 @@ type edit struct {
 	T string
 }
 
-func (w *world) randEdit() edit {
+func (w *world) randEdit(forSource bool) edit {
 	r := w.rng
 	p := w.randPath()
 	switch k := r.Intn(10); {
 	case k < 5:
-		return edit{K: "w", P: p, C: r.Intn(40), X: r.Intn(4) == 0}
+		c := 0
+		if forSource {
+			c = w.sourceContent()
+		} else {
+			c = w.fresh()
+		}
+		return edit{K: "w", P: p, C: c, X: r.Intn(4) == 0}
 	case k < 7:
 		return edit{K: "rm", P: p}
 	case k < 8:
@@ -473,41 +507,94 @@ func (w *world) populate() {
 	r := w.rng
 	n := 3 + r.Intn(6)
 	for i := 0; i < n; i++ {
-		e := w.randEdit()
+		e := w.randEdit(false)
 		if e.K == "rm" || e.K == "chmod" {
-			e = edit{K: "w", P: e.P, C: 1 + r.Intn(39)}
+			e = edit{K: "w", P: e.P, C: w.fresh()}
 		}
 		w.all(e)
 	}
 	for i := 0; i < w.cs.Bulk; i++ {
-		w.all(edit{K: "w", P: fmt.Sprintf("bulk/g%d/f%03d", i%3, i), C: 1 + (i*7+int(w.cs.Seed))%19})
+		w.all(edit{K: "w", P: fmt.Sprintf("bulk/g%d/f%03d", i%3, i), C: w.fresh()})
 	}
 	// the source differs a little from the mirrored roots
 	for i := r.Intn(4); i > 0; i-- {
-		w.source(w.randEdit())
+		w.source(w.randEdit(true))
 	}
 	if w.cs.Bulk > 0 {
 		// ... and, where serialised snapshots span several rsync blocks, also in
 		// layout: an early extra entry shifts everything behind it
-		w.source(edit{K: "w", P: fmt.Sprintf("0shift%0*d", 1+r.Intn(40), 7), C: 3})
+		w.source(edit{K: "w", P: fmt.Sprintf("0shift%0*d", 1+r.Intn(40), 7), C: w.fresh()})
+	}
+}
+
+// observeDuplicates walks root L (plain file reads, SHA-1 as the session hashes)
+// and remembers every digest that two files share at this moment. Scans only
+// happen inside Scan operations (and once when a polling endpoint starts), and
+// the driver looks at the disk at each of those moments, so every digest that
+// is ambiguous in any state of the endpoint's cache is in this set. Stage
+// requests leave such digests out: for them the local endpoint's "copy it from
+// the root" decision follows Go map order (Cache.GenerateReverseLookupMap) and
+// is not a function of the endpoint's inputs.
+func (w *world) observeDuplicates() {
+	seen := map[string]int{}
+	filepath.Walk(w.rootL, func(p string, fi os.FileInfo, err error) error {
+		if err != nil || !fi.Mode().IsRegular() {
+			return nil
+		}
+		if b, err := os.ReadFile(p); err == nil {
+			seen[sha1hex(b)]++
+		}
+		return nil
+	})
+	for d, n := range seen {
+		if n > 1 {
+			w.ambiguous[d] = true
+		}
+	}
+}
+
+// settle makes sure the server has consumed everything the client sent (the
+// transmissions of a staging operation are not acknowledged): a round trip - a
+// poll with a cancelled context - is answered only after them. External edits
+// of the mirrored roots are made between operations of BOTH endpoints (the
+// model's Edit action requires an idle server), not while the server is still
+// receiving files.
+func (w *world) settle(rec map[string]any) {
+	if !w.unsynced || w.hung || w.ended {
+		return
+	}
+	ctx, cancel := cancelledContext(true)
+	var perr error
+	ok := w.guard(func() { perr = w.epR.Poll(ctx) })
+	cancel()
+	rec["settle"] = map[string]any{"hang": !ok, "err": w.errText(perr)}
+	w.unsynced = false
+	if perr != nil {
+		w.ended = true
 	}
 }
 
 func (w *world) doEdit(op opSpec, rec map[string]any) {
 	r := w.rng
 	rec["kind"] = op.Kind
+	if op.Kind != "src" {
+		w.settle(rec)
+		if w.hung || w.ended {
+			return
+		}
+	}
 	switch op.Kind {
 	case "mod":
 		for i := 1 + r.Intn(3); i > 0; i-- {
-			w.mirrored(w.randEdit())
+			w.mirrored(w.randEdit(false))
 		}
 		if w.cs.Bulk > 0 && r.Intn(2) == 0 {
 			i := r.Intn(w.cs.Bulk)
-			w.mirrored(edit{K: "w", P: fmt.Sprintf("bulk/g%d/f%03d", i%3, i), C: 1 + r.Intn(39)})
+			w.mirrored(edit{K: "w", P: fmt.Sprintf("bulk/g%d/f%03d", i%3, i), C: w.fresh()})
 		}
 	case "src":
 		for i := 1 + r.Intn(4); i > 0; i-- {
-			w.source(w.randEdit())
+			w.source(w.randEdit(true))
 		}
 	case "rm":
 		os.RemoveAll(w.rootL)
@@ -519,7 +606,7 @@ func (w *world) doEdit(op opSpec, rec map[string]any) {
 		if r.Intn(6) == 0 {
 			// the root as a regular file
 			w.clock++
-			c := w.contentBytes(1 + r.Intn(30))
+			c := w.contentBytes(w.fresh())
 			t := time.Unix(1500000000+w.clock*7, 0)
 			for _, root := range []string{w.rootL, w.rootR} {
 				os.WriteFile(root, c, 0o644)
@@ -529,9 +616,9 @@ func (w *world) doEdit(op opSpec, rec map[string]any) {
 			os.Mkdir(w.rootL, 0o755)
 			os.Mkdir(w.rootR, 0o755)
 			for i := r.Intn(3); i > 0; i-- {
-				e := w.randEdit()
+				e := w.randEdit(false)
 				if e.K == "rm" || e.K == "chmod" {
-					e = edit{K: "w", P: e.P, C: 1 + r.Intn(39)}
+					e = edit{K: "w", P: e.P, C: w.fresh()}
 				}
 				w.mirrored(e)
 			}
@@ -550,7 +637,7 @@ func (w *world) doEdit(op opSpec, rec map[string]any) {
 			n = w.cs.Max + 3
 		}
 		for i := 0; i < n; i++ {
-			w.mirrored(edit{K: "w", P: fmt.Sprintf("grow/f%03d", i), C: 1 + i%15})
+			w.mirrored(edit{K: "w", P: fmt.Sprintf("grow/f%03d", i), C: w.fresh()})
 		}
 	case "shrink":
 		w.mirrored(edit{K: "rm", P: "grow"})
@@ -703,6 +790,7 @@ func (w *world) doScan(op opSpec, rec map[string]any) {
 	case "junk":
 		anc = w.junkTree()
 	}
+	w.observeDuplicates()
 	rec["full"] = op.Full
 	rec["anc"] = op.Anc
 	rec["ancnil"] = anc == nil
@@ -811,9 +899,13 @@ func (w *world) doStage(op opSpec, rec map[string]any) {
 		idx[i] = i
 	}
 	sort.Slice(idx, func(a, b int) bool { return paths[idx[a]] < paths[idx[b]] })
+	w.observeDuplicates()
 	var ps []string
 	var ds [][]byte
 	for _, i := range idx {
+		if w.ambiguous[hex.EncodeToString(digests[i])] {
+			continue
+		}
 		ps = append(ps, paths[i])
 		ds = append(ds, digests[i])
 	}
@@ -860,6 +952,9 @@ func (w *world) doStage(op opSpec, rec map[string]any) {
 			okf := w.guard(func() { ferr = w.epS.Supply(ret, sigs, recv) })
 			res["fed"] = true
 			res["feed"] = w.errText(ferr)
+			if isRemote {
+				w.unsynced = true
+			}
 			if !okf {
 				res["hang"] = true
 			}
@@ -892,6 +987,7 @@ func (w *world) doStage(op opSpec, rec map[string]any) {
 		ok := w.guard(func() { perr = w.epR.Poll(ctx) })
 		cancel()
 		rec["observed"] = true
+		w.unsynced = false
 		rec["syncerr"] = w.errText(perr)
 		rec["synchang"] = !ok
 		l["store"] = walkStore(filepath.Join(w.data, "staging", w.sidL+"-"+w.name))
@@ -1120,14 +1216,17 @@ func runCase(scratch, data, cid string, cs *caseSpec) ([]map[string]any, int, er
 			w.doEdit(op, rec)
 		case "Scan":
 			w.doScan(op, rec)
+			w.unsynced = false
 		case "Stage":
 			w.doStage(op, rec)
 		case "Supply":
 			w.doSupply(op, rec)
 		case "Trans":
 			w.doTrans(op, rec)
+			w.unsynced = false
 		case "Poll":
 			w.doPoll(rec)
+			w.unsynced = false
 		default:
 			return nil, 0, fmt.Errorf("unknown op %q", op.Op)
 		}
